@@ -897,7 +897,10 @@ def run(scn: dict) -> dict:
         chk.doomed_ever.update(chk.must_die)
         for label, info in sorted(chk.protected.items()):
             rec = chk.inst.get(label)
-            if rec is not None and rec["task"].cancelled() and label not in chk.doomed_ever:
+            # (a task whose own termination is don't-care - it called kill_me=True against a rival that had itself
+            # been asked to die - may have ended cancelled for that reason)
+            if (rec is not None and rec["task"].cancelled() and label not in chk.doomed_ever
+                    and label not in chk.maybe_die):
                 chk.viol("C13.owner_cancelled_by_foreign_kill_me", {},
                          f"task {label} (p{rec['tid']}) owned {info['name']} when a file preamble called "
                          f"task.unique({info['name']!r}, kill_me=True) - which must do nothing - and was cancelled")
